@@ -102,7 +102,19 @@ def MailboxOk (net : Net) (c : Cert) (m : Nat) : Prop :=
     c.sender m < net.threads.length - 1 ∧ c.out (c.sender m) = some m ∧
     ∀ k, k < sp.drive.length → ReaderOk net c m k
 
-/-- the static shape -/
+/-- the static shape the net-level `_partial` theorems are proved for.  What it EXCLUDES (all of it inside the property's
+quantifier, so for these there is no theorem, only the sampled checks):
+* multi-output plugins (`divide_outputs`) and every reconvergent graph, also a lag-free diamond: each mailbox has exactly
+  ONE reader that is a stage or the consumer (`c.pipe m`), all its other readers are savers (`ReaderOk`, third clause);
+* readers that stop early: `ReaderOk` demands `body.count (read m k) = tot net c m`, i.e. every stage, saver and the
+  consumer is programmed to read each of its inputs to exhaustion (all messages and the end marker) unless an exception
+  ends it first — a stage that returns without draining an input (in the real code: its upstream sender hangs until the
+  mailbox timeout) is outside;
+* mailboxes whose pipe reader does not drive (`MailboxOk`: `drive[c.pipe m] = true`), capacity 0;
+* savers that `die` anywhere but in their last instruction (`close()` in the `finally` of `save_from`).
+`wire` of a chain / tree of single-output plugins and loaders satisfies it: proved for finite families
+(`C06.wire_treeNet_partial`, `C06.wire_treeNet_merge_partial`), evaluated by the driver on the wiring of every real run of
+the check (`c06.run`, field `tree=`); there is no general lemma `tree-shaped components ⇒ TreeNet (wire …)`. -/
 def TreeNet (net : Net) (c : Cert) : Prop :=
   1 ≤ net.threads.length ∧ (∀ m, m < net.mbs.length → MailboxOk net c m) ∧ (∀ t, t < net.threads.length → ThreadOk net c t)
 
